@@ -194,6 +194,12 @@ Theorem C18_rlp_fix_conservative : forall n bs v, rlp_decode true n bs = Ok v ->
 Proof. exact rlp_fix_conservative. Qed.
 Print Assumptions C18_rlp_fix_conservative.
 
+(** inside a list (Rlp::val_at): the first item is cut out by its header and decoded the same way, whatever follows *)
+Theorem C18_rlp_list_item : forall fx n x rest, 0 <= x -> lenZ (sp_rlp_encode x ++ rest) < USIZE ->
+  rlp_decode_item fx n (sp_rlp_encode x ++ rest) = rlp_decode fx n (sp_rlp_encode x).
+Proof. exact rlp_decode_item_run. Qed.
+Print Assumptions C18_rlp_list_item.
+
 (* ================================================================ the op tables *)
 Theorem C18_tables_agree : forall dbg a k, In k der_keys -> run_op18 ops_der_spec k dbg a <> Unsupported ->
   run_op18 ops_der_model k dbg a = run_op18 ops_der_spec k dbg a.
